@@ -48,3 +48,10 @@ package errors
 //@   ensures [debug_writes_once] (panicked == 0 && result1 != nil && h.Debug) ==> (result0 == 0 && wh >= old(wh) + 1 && bw >= old(bw) + 1 && errBodies == old(errBodies))
 //@   ensures [success_untouched] (panicked == 0 && nextRet < 400 && result1 == nil) ==> (result0 == nextRet && errBodies == old(errBodies))
 //@   ensures [panic_contained] panicked == 1 ==> (result0 == 0 && wh >= old(wh) + 1 && lastStatus == 500)
+
+//@ unit setup_sweep props=C11 files=setup.go nilchecks=on nonnil_params=on dispenser_variants=on filter=`.`
+//@ // Safety sweep of this directive's setup code: index, slice, division, nil-map store, nil dereference, explicit panic,
+//@ // and termination of the loops driven by the token cursor. No functional contract; callees in the dispenser through their contracts.
+//@ use casketfile/contracts_verif.go:dispenser_api
+//@ use @verif/specs/stdlib.spec:stdlib
+//@ use @verif/specs/stdlib.spec:casket_api
